@@ -375,6 +375,13 @@ fn gen_step(rng: &mut Rng) -> String {
         7 => "nosuchop".to_string(),
         _ => "no:such".to_string(),
     };
+    // a parameter value may contain a colon (a sexagesimal angle, a label): that makes
+    // neither the step a macro invocation nor its name a resource name. Operators ignore
+    // parameters they do not know.
+    // (drawn from a copy of the generator: adding this choice left every plan of the
+    // earlier engine versions as it was)
+    let mut side = rng.clone();
+    let base = if side.chance(0.06) { format!("{} {}", base, side.pick(&["lat_0=55:30", "note=a:b", "lon_0=12:00:00"])) } else { base };
     if rng.chance(0.2) {
         format!("{} inv", base)
     } else {
